@@ -518,7 +518,7 @@ func c11() {
 	}
 	run.Extra["scenarios"] = len(scns)
 	run.Extra["scenario_facts"] = stats
-	run.Rule = "every scenario of the bounded menu, each against a real victim Syncer+Manager (optionally with a real honest peer on the 12-block trunk) and one scripted peer over an in-memory network: (S1) the scripted peer claims and serves a heavier 14-block branch (forking below the v2 require height, crossing it) in which one block at position 1,2,3,6 or 14 carries one of 17 corruptions (PoW, timestamps, payouts, v2 height/commitment, v1/v2 transactions before/after their heights, bad signatures, double spends, missing parents); victim starting at genesis, at the fork point, or above the require height on the trunk; both connection orders. (S2) a valid heavier branch with exactly one corrupted answer: headers (dropped/swapped/duplicated/insufficient work/foreign/empty with remaining), blocks (fewer/more/swapped/foreign/tampered/empty), checkpoints (every encoded state field perturbed, wrong block, v1 block), closed stream, silence. (S3) announcements: headers/outlines/transaction sets, valid and corrupted, outlines with missing transactions answered honestly/wrongly/not at all. (S4) malformed or out-of-range requests to the victim. distinct = scenarios run"
+	run.Rule = "every scenario of the bounded menu, each against a real victim Syncer+Manager (optionally with a real honest peer on the 12-block trunk) and one scripted peer over an in-memory network: (S1) the scripted peer claims and serves a heavier 14-block branch (forking below the v2 require height, crossing it) in which one block at position 1,2,3,6 or 14 carries one of 17 corruptions (PoW, timestamps, payouts, v2 height/commitment, v1/v2 transactions before/after their heights, bad signatures, double spends, missing parents); victim starting at genesis, at the fork point, or above the require height on the trunk; both connection orders. (S2) a valid heavier branch with exactly one corrupted answer: headers (dropped/swapped/duplicated/insufficient work/foreign/empty with remaining), blocks (fewer/more/swapped/foreign/tampered/empty), checkpoints (every encoded state field perturbed, wrong block, v1 block), closed stream, silence. (S3) announcements: headers/outlines/transaction sets, valid and corrupted, outlines with missing transactions answered honestly/wrongly/not at all. (S4) malformed or out-of-range requests to the victim. (S5) the scripted peer claims the victim's own chain, refuses the first 1-3 header requests so that the victim re-downloads blocks it already has, and serves them with the right ids but altered bodies (payout value, extra payout, v2 height, transactions dropped). distinct = scenarios run"
 	run.Explanation = "Oracles: every tip the victim announces (Manager.OnReorg) is a valid block of the universe and strictly heavier than the previous one; the final state equals an independent ledger replay and passes the full best-chain audit; with an honest peer connected the victim ends with at least the honest chain's work within 60 s; the honest peer is never banned; a peer that served a provably invalid block / insufficient work / wrong missing transactions is reported to PeerStore.Ban; the victim process survives (scenarios run in child processes, a crash is attributed by re-running the in-flight scenarios alone). The goroutine schedule inside a scenario is the runtime's; the scripted peer's behaviour is fixed by the scenario."
 	run.Assumptions = []string{"one deviation (corrupted block or answer) per scenario", "schedules inside a scenario are not controlled", "reference validity from go.sia.tech/core/consensus via the ledger"}
 }
